@@ -77,8 +77,30 @@ def pre_image(d, data):
 FAKE_DATA = b"(a\rb) Tj <41> Tj /A#42 gs\r\n % not a content stream\r"
 
 
+class Pg(list):
+    """the content streams of a page IN ARRAY ORDER, WITH REPETITIONS (what every oracle below works on), plus how /Contents is
+    written: keys[i] names the stream OBJECT of entry i - equal keys are one object, within the page and across the pages
+    of the document; form 'array' (direct array), 'indirect' (the array is an indirect object, shared by the pages that give
+    the same arrkey) or 'single' (one entry: the stream itself).  items (structurally invalid pages only): the array as
+    written, ('s', key) for a stream entry, anything else a pdfgen value / ('ref', key) naming a non-stream object."""
+
+    def __init__(self, streams, keys, form="array", arrkey=None, items=None):
+        list.__init__(self, streams)
+        self.keys, self.form, self.arrkey, self.items = list(keys), form, arrkey, items
+        self.invalid = items is not None
+
+
+def pg_from(pool, keys, form="array", arrkey=None):
+    return Pg([pool[k] for k in keys], keys, form, arrkey)
+
+
+def is_invalid_doc(pages):
+    return any(getattr(ps, "invalid", False) for ps in pages)
+
+
 def build_doc(rng, pages, pre=()):
-    """pages: list of lists of content streams; pre: names of image XObjects that already exist in every page's resources"""
+    """pages: list of lists of content streams (a fresh object per entry) or Pg; pre: names of image XObjects that already exist
+    in every page's resources"""
     d = pdfgen.Doc()
     cat = d.add(None)
     pgs = d.add(None)
@@ -90,9 +112,41 @@ def build_doc(rng, pages, pre=()):
     form2 = d.add(Stream(D(Type=N("XObject"), Subtype=N("Form"), BBox=[0, 0, 10, 10], Resources=D(ProcSet=[N("PDF")])), b"q (unused\r) Tj Q\r"))
     fake = d.add(Stream(D(Note=Str(b"not content")), FAKE_DATA))
     refs = []
+    shared = {}         # stream key / array key / non-stream key -> reference
+
+    def sref(key, data):
+        if key not in shared:
+            shared[key] = d.add(Stream({}, data))
+        return shared[key]
     for streams in pages:
-        srefs = [d.add(Stream({}, s)) for s in streams]
-        pg = D(Type=N("Page"), Parent=pgs, MediaBox=[0, 0, 200, 200], Contents=(srefs[0] if len(srefs) == 1 and rng.random() < 0.7 else srefs),
+        if isinstance(streams, Pg):
+            if streams.items is not None:
+                by_key = dict(zip(streams.keys, streams))
+                arr = []
+                for it in streams.items:
+                    if isinstance(it, tuple) and it[0] == "s":
+                        arr.append(sref(it[1], by_key[it[1]]))
+                    elif isinstance(it, tuple) and it[0] == "ref":
+                        if it[1] not in shared:
+                            shared[it[1]] = d.add(it[2])
+                        arr.append(shared[it[1]])
+                    elif isinstance(it, tuple) and it[0] == "missing":
+                        arr.append(Ref(9000 + it[1]))
+                    else:
+                        arr.append(it)
+                contents = arr[0] if streams.form == "single" else arr
+            else:
+                arr = [sref(k, s_) for k, s_ in zip(streams.keys, streams)]
+                contents = arr[0] if streams.form == "single" else arr
+            if streams.form == "indirect":
+                ak = ("arr", "shared", streams.arrkey) if streams.arrkey is not None else ("arr", "page", len(refs))
+                if ak not in shared:
+                    shared[ak] = d.add(contents)
+                contents = shared[ak]
+        else:
+            srefs = [d.add(Stream({}, s)) for s in streams]
+            contents = srefs[0] if len(srefs) == 1 and rng.random() < 0.7 else srefs
+        pg = D(Type=N("Page"), Parent=pgs, MediaBox=[0, 0, 200, 200], Contents=contents,
                Resources={b"Font": D(F1=font, F2=font2), b"XObject": {**{b"Fm1": form, b"Fm2": form2}, **pre_refs}})
         refs.append(d.add(pg))
     d.objects[pgs.n] = D(Type=N("Pages"), Count=len(refs), Kids=refs)
@@ -107,6 +161,8 @@ def stream_bytes(s):
     if f is None:
         return s.data
     if f == Name(b"FlateDecode") or f == [Name(b"FlateDecode")]:
+        if not s.data:
+            return b""        # zero bytes labelled /FlateDecode: not a zlib stream; reported by empty_flate_streams (finding C16-F7)
         return zlib.decompress(s.data)
     raise ValueError("unexpected filter %r" % (f,))
 
@@ -329,9 +385,117 @@ def gen_docs(chk):
     pick = la if chk.tier != "quick" else rng.sample(la, 14)
     for i in range(0, len(pick), 7):
         docs.append([[b"BT /F1 12 Tf ET /Fm1 Do " + c] for c in pick[i:i + 7]])
+    docs += gen_list_docs(chk)
     # damaged content: must be reported
     docs.append([[b"q (abc"], [b"q Q", b"<4x> Tj"], [b"BI /W 1 /H 1 /BPC 8 /CS /G ID \x80\x81"], [b") q"], [b"/A#00 gs (a\rb) Tj"], [b"q Q\n"]])
     return docs
+
+
+def gen_list_docs(chk):
+    """what /Contents may look like (ISO 32000-1 Table 30): arrays that list a stream object more than once (adjacent, non-adjacent,
+    an image stream twice), the same stream on several pages (alone and inside arrays), one-element and empty arrays, indirect
+    arrays (private and shared by two pages); a second document of random arrays drawn with replacement from one pool; a third
+    one whose arrays contain what is not a stream"""
+    rng = chk.rng
+    docs = []
+    img = b"q 100 0 0 100 0 300 cm\n" + cli_image(rng, keys=CLI_II[0], n=rng.randint(3, 9)) + b" Q" + rng.choice([b"\n", b"", b"\r"])
+    pool = {"cm": b"1 0 0 1 120 0 cm" + rng.choice([b"\n", b"", b" ", b"\r"]), "a": cli_content(rng, 2, images=False)[0],
+            "b": c16.gen_statement(rng) + rng.choice([b"", b"\n", b" % c"]), "img": img, "e": b""}
+    docs.append([pg_from(pool, ["a", "cm", "b", "cm", "img", "cm", "a"]),            # one fragment between drawing steps
+                 pg_from(pool, ["cm", "a", "a", "img"]),                             # the same drawing step twice in a row
+                 pg_from(pool, ["img", "img"]),                                      # an inline image drawn twice
+                 pg_from(pool, ["cm"]),                                              # array with one element
+                 pg_from(pool, []),                                                  # empty array
+                 pg_from(pool, ["a", "cm", "a"], form="indirect", arrkey="x"),       # indirect array ...
+                 pg_from(pool, ["a", "cm", "a"], form="indirect", arrkey="x"),       # ... shared by two pages
+                 pg_from(pool, ["a"], form="single"),                                # the same stream as a page's only content
+                 pg_from(pool, ["b", "e", "b", "e", "img"], form="indirect")])
+    ndoc = 1 if chk.tier == "quick" else 30
+    for _ in range(ndoc):
+        pool = {i: (cli_content(rng, rng.randint(1, 3), images=rng.random() < 0.5)[0] if i else b"1 0 0 1 12 0 cm" + rng.choice([b"\n", b""])) for i in range(4)}
+        pages = []
+        for pi in range(6):
+            keys = []
+            for _k in range(rng.choice([2, 3, 3, 4, 5, 6])):
+                keys.append(rng.choice(keys) if keys and rng.random() < 0.45 else rng.randrange(4))
+            pages.append(pg_from(pool, keys, form=rng.choice(["array", "array", "indirect"]), arrkey=(0 if rng.random() < 0.3 else None)))
+        # pages that share the array object must list the same streams
+        first = {}
+        for i, pg in enumerate(pages):
+            if pg.form == "indirect" and pg.arrkey is not None:
+                if pg.arrkey in first:
+                    pages[i] = pg_from(pool, first[pg.arrkey].keys, form="indirect", arrkey=pg.arrkey)
+                else:
+                    first[pg.arrkey] = pg
+        docs.append(pages)
+    # what is not a stream inside the array / instead of it: null, a number, a nested array, references to such objects and to nothing
+    pool = {"a": b"0 0 1 rg 0 300 100 100 re f\n", "cm": b"1 0 0 1 120 0 cm\n", "img": img}
+    bad = [None, 7, [], ("ref", "int", 7), ("ref", "arr", []), ("ref", "null", None), ("missing", 1), {b"A": 1}]
+
+    def inv(items, form="array"):
+        keys = [it[1] for it in items if isinstance(it, tuple) and it[0] == "s"]
+        return Pg([pool[k] for k in keys], keys, form, None, items)
+    S = lambda k: ("s", k)
+    pages = [inv([S("a"), b_, S("cm"), S("a"), S("img")]) for b_ in bad[:7]]
+    pages += [inv([bad[1], S("a"), S("a")], form="indirect"), inv([S("img"), S("cm"), bad[2]]), inv([{b"A": 1}], form="single"), inv([7], form="single")]
+    docs.append(pages)
+    return docs
+
+
+def empty_flate_streams(sd):
+    """object numbers of streams whose dictionary says /FlateDecode while the data have zero bytes (RFC 1950: the shortest zlib
+    stream has 8 bytes; a strict decoder rejects the empty string)"""
+    out = []
+    for (n, g), o in sorted(sd.objs.items()):
+        if isinstance(o, Stream) and not o.data and o.d.get(b"Filter") in (Name(b"FlateDecode"), [Name(b"FlateDecode")]):
+            out.append(n)
+    return out
+
+
+def page_stream_items(sd, pg):
+    """the streams a page's /Contents designates, in order, skipping what is not a stream"""
+    c = deref(sd, pg.get(b"Contents"))
+    items = c if isinstance(c, list) else [c]
+    out = []
+    for x in items:
+        x = deref(sd, x)
+        if isinstance(x, Stream):
+            out.append(stream_bytes(x))
+    return out
+
+
+def judge_invalid_structure(chk, runner, job, result, sr, pages, fail):
+    """a document whose /Contents values are not 'a stream or an array of streams': qpdf may refuse (exit 2), may warn (exit 3), or
+    must leave the pages alone (exit 0, silent): same elements, every token of every stream that is there, in order"""
+    rc, se, out = result
+    if rc in (2, 3) and se.strip():
+        return "refused" if rc == 2 else "warned"
+    if rc != 0 or se.strip() or sr is None or not sr.get("ok"):
+        fail("invalid /Contents structure: exit status %d / output unreadable" % rc)
+        return "bad"
+    sd = filecheck.StrictDoc(sr, out)
+    root = deref(sd, sd.trailer[b"Root"])
+    opages = []
+    walk(sd, root[b"Pages"], opages)
+    lines = []
+    for pi, (ps, opg) in enumerate(zip(pages, opages)):
+        lines.append("c16sem " + hexs(c16_coalesce_py(list(ps))))
+        lines.append("c16sem " + hexs(c16_coalesce_py(page_stream_items(sd, opg))))
+        # untouched = the value still has its shape: the elements that are not streams are still there
+        want_shape = ["s" if isinstance(it, tuple) and it[0] == "s" else "x" for it in ps.items]
+        c = deref(sd, opg.get(b"Contents"))
+        got_shape = ["s" if isinstance(deref(sd, x), Stream) else "x" for x in (c if isinstance(c, list) else [c])]
+        if got_shape != want_shape:
+            fail("invalid /Contents structure: exit 0 without a diagnostic, but /Contents was rebuilt (elements %s -> %s; s = stream, x = not a stream)"
+                 % ("".join(want_shape), "".join(got_shape)), page=pi, sig="C16:cli:invalid-structure")
+            return "bad"
+    res = common.run_lines(runner, lines)
+    for pi in range(min(len(pages), len(opages))):
+        if res[2 * pi] != res[2 * pi + 1]:
+            fail("invalid /Contents structure: exit 0 without a diagnostic, but the tokens of the page's streams changed", page=pi,
+                 expected_tokens=res[2 * pi][:500], got_tokens=res[2 * pi + 1][:500], sig="C16:cli:invalid-structure")
+            return "bad"
+    return "kept"
 
 
 def part_cli(chk, runner):
@@ -342,7 +506,7 @@ def part_cli(chk, runner):
     for di, pages in enumerate(docs):
         path = os.path.join(wd, "in%d.pdf" % di)
         open(path, "wb").write(build_doc(rng, pages, pre_of(di)))
-        damaged_doc = (di == len(docs) - 1)
+        damaged_doc = (di == len(docs) - 1) or is_invalid_doc(pages)
         for name, cfg in CONFIGS:
             jobs.append((di, name, cfg, path))
         maxlen = 0
@@ -351,6 +515,9 @@ def part_cli(chk, runner):
                 for m in re.finditer(rb"ID[\x00\t\n\x0c\r ](.*?)EI", s, re.S):
                     maxlen = max(maxlen, len(m.group(1)))
         mins = list(range(0, maxlen + 2)) if (chk.tier != "quick" or di == 0) else sorted(set([0, 1, 2, 3, 5, 8, maxlen, maxlen + 1, rng.randint(0, maxlen + 1)]))
+        if is_invalid_doc(pages):
+            for mn in (0, 1024):
+                jobs.append((di, "externalize-%d" % mn, ["--externalize-inline-images", "--ii-min-bytes=%d" % mn, "--decode-level=none", "--compress-streams=n"], path))
         if not damaged_doc:
             for mn in mins:
                 jobs.append((di, "externalize-%d" % mn, ["--externalize-inline-images", "--ii-min-bytes=%d" % mn, "--decode-level=none", "--compress-streams=n"] + (["--qdf"] if mn % 3 == 0 else []), path))
@@ -366,6 +533,8 @@ def part_cli(chk, runner):
     # resources as /IIm1 ... when the next step names its images
     hists = []
     for di, pages in enumerate(docs[:-1]):
+        if is_invalid_doc(pages):
+            continue
         lens = sorted({len(m.group(1)) for ps in pages for s in ps for m in re.finditer(rb"ID[\x00\t\n\x0c\r ](.*?)EI", s, re.S)} | {2, 9})
         mid = lens[len(lens) // 2]
         hists.append((di, "h2", [mid, 0]))
@@ -407,6 +576,18 @@ def part_cli(chk, runner):
     nontriv = set()
     kinds = {}
     tie_fail = []
+    invalid_verdicts = {}
+    list_pages = {"repeated": 0, "shared_object": 0, "indirect_array": 0, "one_element_array": 0, "empty_array": 0}
+    for pages in docs:
+        seen = set()
+        for ps in pages:
+            if isinstance(ps, Pg) and not ps.invalid:
+                list_pages["repeated"] += len(set(ps.keys)) != len(ps.keys)
+                list_pages["shared_object"] += bool(seen & set(ps.keys))
+                list_pages["indirect_array"] += ps.form == "indirect"
+                list_pages["one_element_array"] += (len(ps) == 1 and ps.form != "single")
+                list_pages["empty_array"] += len(ps) == 0
+                seen |= set(ps.keys)
 
     for ji, (job, (rc, se, out)) in enumerate(zip(jobs, results)):
         di, name, cfg, path = job
@@ -414,12 +595,20 @@ def part_cli(chk, runner):
         kinds[name.split("-")[0]] = kinds.get(name.split("-")[0], 0) + 1
         desc = {"argv": ["qpdf", "--static-id"] + cfg + [os.path.basename(path), os.path.basename(out)], "doc": di,
                 "pages": [[repr(s) for s in ps] for ps in pages]}
+        if any(isinstance(ps, Pg) for ps in pages):
+            # which entries are the same stream object, and how /Contents is written
+            desc["contents_entries"] = [("%s %r" % (ps.form, ps.items if ps.invalid else ps.keys)) if isinstance(ps, Pg) else None for ps in pages]
         stderr = se.decode("latin-1")
 
         def fail(why, sig="C16:cli:changed", **kw):
             chk.violation(dict({"kind": "property-fails-on-implementation", "part": "cli-" + name, "why": why, "exit": rc, "stderr": stderr[-600:],
                                 "input_pdf_hex": open(path, "rb").read().hex()}, **desc, **kw),
                           signature=sig)
+        if is_invalid_doc(pages):
+            verdict = judge_invalid_structure(chk, runner, job, (rc, se, out), sr_of.get(ji), pages, fail)
+            invalid_verdicts[verdict] = invalid_verdicts.get(verdict, 0) + 1
+            nontriv.add((di, name))
+            continue
         if ji not in sr_of:
             fail("qpdf failed (exit %d) on a readable input" % rc)
             continue
@@ -433,6 +622,10 @@ def part_cli(chk, runner):
         except Exception as e:
             fail("output page tree / streams cannot be read: %r" % (e,))
             continue
+        ef = empty_flate_streams(sd)
+        if ef:
+            fail("qpdf wrote a stream with /Filter /FlateDecode and /Length 0: zero bytes are not a zlib stream, a strict reader cannot decode the "
+                 "page content (object %s)" % ", ".join(map(str, ef)), sig="C16:cli:empty-flate")
         normalizing = ("--normalize-content=y" in cfg) or ("--qdf" in cfg)
         coalescing = "--coalesce-contents" in cfg
         extern = "--externalize-inline-images" in cfg
@@ -464,6 +657,11 @@ def part_cli(chk, runner):
                              "fragments": False, "_pre": dict(FORM_PRE),
                              "_names": list(FORM_PRE) if "-step" not in name or name.endswith("-step0") else None}
                     checks.append(("extern", ji, "form", [FORM_DATA], [stream_bytes(oform)], deref(sd, oform.d.get(b"Resources")) or {}, sd, min_bytes, fdesc))
+                continue
+            if coalescing and len(ps) == 0 and isinstance(ps, Pg):
+                # an empty array is replaced by one empty stream (or kept): nothing is drawn either way
+                if any(x.strip(b"\x00\t\n\x0c\r ") for x in os_):
+                    fail("--coalesce-contents turned an empty /Contents array into content", **pdesc)
                 continue
             if coalescing and len(ps) > 1:
                 if len(os_) != 1:
@@ -581,6 +779,8 @@ def part_cli(chk, runner):
     chk.cov["parts"]["cli"]["documents"] = len(docs)
     chk.cov["parts"]["cli"]["name_allocations_compared"] = len(name_ties)
     chk.cov["parts"]["cli"]["histories"] = len(hists)
+    chk.cov["parts"]["cli"]["contents_list_pages"] = list_pages
+    chk.cov["parts"]["cli"]["invalid_structure_jobs"] = invalid_verdicts
 
 
 def c16_coalesce_py(ps):
